@@ -115,7 +115,17 @@ def run_case(c):
             # else: the wrapper's default (infinite)
         else:
             kw["cutoff"] = cutoff
-        pos_before = pos.copy()
+        pos_before, cell_before = pos.copy(), cell.copy()
+        pbc_arr = None
+        if c.get("pbc_array") and not isinstance(pbc_arg, bool):
+            # the caller owns ONE boolean ndarray of periodicity flags and hands it to every call (as `atoms.pbc` would be):
+            # two earlier calls with small finite cutoffs on the same arrays, then the examined call
+            pbc_arg = pbc_arr = np.array(pbc, dtype=bool)
+            for small in (0.25, 1.0):
+                try:
+                    MG.get_displacement_tensor(pos, cell, pbc_arg, cutoff=small)
+                except Exception:
+                    pass
         if c.get("history"):
             # earlier calls on the same positions with other cutoffs / return flags, results scribbled over
             r0 = [np.array(x, copy=True) for x in MG.get_displacement_tensor(pos, cell, pbc_arg, return_factors=True, return_distances=True, **kw)]
@@ -127,7 +137,11 @@ def run_case(c):
             r1 = MG.get_displacement_tensor(pos, cell, pbc_arg, return_factors=True, return_distances=True, **kw)
             out["history_same"] = bool(all(np.array_equal(a, b) for a, b in zip(r0, r1)))
         disp, fac, dist = MG.get_displacement_tensor(pos, cell, pbc_arg, return_factors=True, return_distances=True, **kw)
-        out["input_unchanged"] = bool(np.array_equal(pos, pos_before))
+        changed = [n for n, a, b in (("positions", pos, pos_before), ("cell", cell, cell_before)) if not np.array_equal(a, b)]
+        if pbc_arr is not None and not np.array_equal(pbc_arr, np.array(pbc, dtype=bool)):
+            changed.append("pbc")
+        out["input_unchanged"] = not changed
+        out["input_changed"] = changed
     out["dist"] = [[hexf(x) for x in row] for row in np.asarray(dist).tolist()]
     out["disp"] = [[[hexf(x) for x in v] for v in row] for row in np.asarray(disp).tolist()]
     out["fac"] = [[[hexf(x) for x in v] for v in row] for row in np.asarray(fac).tolist()]
